@@ -37,8 +37,6 @@ def _control_in_names(db):
 
 def _region_skip(db):
     """open findings of the unchanged tree, decided on the model that is being rendered (each only while its witness fails)"""
-    if region_active('c01_backslash_in_quoted_name') and _control_in_names(db):
-        return True      # a quoted name written with \\t, \\n, \\r, \\f was stored with a control character (C01 finding)
     if region_active('c13_triple_quote_in_text'):
         texts = [t.note.text for t in db.tables] + [s_.text for s_ in db.sticky_notes] + \
             [g.note.text for g in db.table_groups if g.note is not None] + ([db.project.note.text] if db.project is not None else [])
